@@ -253,17 +253,29 @@ NegKinds == {"none", "m1", "m2", "b", "all"}
 Families == {"mode_dot", "multi_mode_dot", "kronecker", "khatri_rao", "inner", "outer", "batched_outer",
              "tensordot", "mttkrp", "moment", "sampled_kr"}
 
+\* order-5 / order-6 operands (beyond MaxOrder) for the single-tensor families
+ExtraShapes == {<<2, 1, 2, 1, 2>>, <<1, 2, 2, 1, 1, 3>>}
 TDShapes == IF Tier = "quick" THEN RepShapes \cap ShapesTo(3) ELSE ShapesTo(3)
 Keys(fam) ==
-    CASE fam \in {"mode_dot", "inner"} -> Shapes
-      [] fam = "multi_mode_dot" -> {s \in RepShapes : Tier # "quick" \/ Len(s) <= 3 \/ s[1] = 2}
+    CASE fam = "mode_dot" -> Shapes \cup ExtraShapes
+      [] fam = "inner" -> Shapes
+      [] fam = "multi_mode_dot" -> {s \in RepShapes : Tier # "quick" \/ Len(s) <= 3 \/ s[1] = 2} \cup {<<2, 1, 2, 1, 2>>}
       [] fam \in {"kronecker", "khatri_rao", "sampled_kr"} -> MatShapes
       [] fam = "outer" -> ShapesTo(3)
       [] fam = "batched_outer" -> ShapesTo(3)
       [] fam = "tensordot" -> TDShapes
-      [] fam = "mttkrp" -> {s \in Shapes : Len(s) >= 2}
+      [] fam = "mttkrp" -> {s \in Shapes : Len(s) >= 2} \cup ExtraShapes
       [] fam = "moment" -> {s \in ShapesTo(3) : Len(s) >= 2}
 
+\* sampled Khatri-Rao: row-count lists whose product exceeds 2^15 (the reported row numbers do not fit int16)
+BigRows == {<<200, 180>>, <<181, 182>>, <<250, 255>>, <<2, 250, 200>>, <<255, 254, 3>>, <<3, 200, 180>>}
+IdxForms == <<"list", "i16", "i32", "i64">>
+IsBigKR(c) == c.op = "sampled_kr" /\ \E k \in 1..Len(c.rows) : c.rows[k] > MaxDim
+BigIdxForms == <<"i16", "list", "i16", "i32", "i16", "i64">>         \* the big regime is about narrow index dtypes
+WithIdt(c) == LET h == SumSeq(c.rows) + c.R + c.ns + c.skip + 1 IN
+              c @@ [idt |-> IF ~c.given THEN "rng"
+                            ELSE IF \E k \in 1..Len(c.rows) : c.rows[k] > MaxDim THEN BigIdxForms[(h % 6) + 1]
+                            ELSE IdxForms[(h % 4) + 1]]
 \* orderings of a mode subset that are enumerated for multi_mode_dot: sorted, reversed, rotated
 ModeOrders(S) ==
     LET a == SortedSeq(S)
@@ -334,14 +346,22 @@ Full(fam, key) ==
       [] fam = "moment" ->
             {[op |-> fam, shape |-> key, order |-> p] : p \in 1..3}
       [] fam = "sampled_kr" ->
-            {c \in {[op |-> fam, rows |-> <<key[1]>> \o r, R |-> key[2], skip |-> sk, ns |-> ns, given |-> gv] :
-                       r \in SeqsUpTo(1..MaxDim, 0, MaxList - 1), sk \in (-1)..(MaxList - 1), ns \in 1..3, gv \in BOOLEAN} :
-                 /\ c.skip < Len(c.rows) /\ (c.skip >= 0 => Len(c.rows) >= 2)}
+            \* idt: how caller-supplied indices are passed (rotated); the BigRows regime (product of the row
+            \* counts beyond 2^15, matrices with 1-2 columns) hangs off the key <<1, 1>>
+            {WithIdt(c) : c \in
+               {c \in {[op |-> fam, rows |-> <<key[1]>> \o r, R |-> key[2], skip |-> sk, ns |-> ns, given |-> gv] :
+                          r \in SeqsUpTo(1..MaxDim, 0, MaxList - 1), sk \in (-1)..(MaxList - 1), ns \in 1..3, gv \in BOOLEAN} :
+                    /\ c.skip < Len(c.rows) /\ (c.skip >= 0 => Len(c.rows) >= 2)}
+               \cup (IF key # <<1, 1>> THEN {} ELSE
+                     {c \in {[op |-> fam, rows |-> rw, R |-> R, skip |-> sk, ns |-> ns, given |-> gv] :
+                                rw \in BigRows, R \in 1..2, sk \in (-1)..2, ns \in 2..3, gv \in BOOLEAN} :
+                          c.skip < Len(c.rows) /\ ProdSeq(SkipAt(c.rows, c.skip)) > 32767})}
 
 \* ---- structural validity (used by the trace specification instead of set membership)
 IsShape(s, lo, hi) == /\ DOMAIN s = 1..Len(s) /\ Len(s) \in lo..hi
                       /\ \A k \in 1..Len(s) : s[k] \in 1..(MaxDim + 1)
 IsBool(b) == b \in BOOLEAN
+InSeq(x, seq) == \E k \in 1..Len(seq) : seq[k] = x
 IsModes(s, N) == DOMAIN s = 1..Len(s) /\ (\A k \in 1..Len(s) : s[k] \in 0..(N - 1)) /\ NoDup(s)
 \* a mode list as passed by the caller: all entries negative (counting from the end) or all non-negative
 IsSpelled(s, N, negative) == /\ DOMAIN s = 1..Len(s) /\ Len(s) <= N
@@ -359,18 +379,18 @@ Fields(op) ==
       [] op = "tensordot" -> {"op", "s1", "s2", "m1", "m2", "b1", "b2", "mint", "bint", "neg"}
       [] op = "mttkrp" -> {"op", "shape", "R", "mode", "w", "variant"}
       [] op = "moment" -> {"op", "shape", "order"}
-      [] op = "sampled_kr" -> {"op", "rows", "R", "skip", "ns", "given"}
+      [] op = "sampled_kr" -> {"op", "rows", "R", "skip", "ns", "given", "idt"}
       [] OTHER -> {}
 
 \* validity of the operation part of a configuration (the argument-form fields are checked by ValidCfg below)
 BaseOK(c) ==
     /\ "op" \in DOMAIN c /\ c.op \in Families /\ Fields(c.op) \subseteq DOMAIN c
     /\ CASE c.op = "mode_dot" ->
-              /\ IsShape(c.shape, 1, MaxOrder) /\ c.mode \in 0..(Len(c.shape) - 1)
+              /\ IsShape(c.shape, 1, MaxOrder + 2) /\ c.mode \in 0..(Len(c.shape) - 1)
               /\ IsBool(c.vec) /\ IsBool(c.tr) /\ IsBool(c.bad)
               /\ c.J \in (IF c.vec THEN {0} ELSE 1..MaxDim)
          [] c.op = "multi_mode_dot" ->
-              /\ IsShape(c.shape, 1, MaxOrder) /\ IsModes(c.modes, Len(c.shape)) /\ Len(c.modes) >= 1
+              /\ IsShape(c.shape, 1, MaxOrder + 2) /\ IsModes(c.modes, Len(c.shape)) /\ Len(c.modes) >= 1
               /\ DOMAIN c.vecs = DOMAIN c.modes /\ DOMAIN c.js = DOMAIN c.modes
               /\ \A j \in DOMAIN c.modes : IsBool(c.vecs[j]) /\ c.js[j] \in (IF c.vecs[j] THEN {0} ELSE 1..MaxDim)
               /\ c.skip \in (-1)..(Len(c.modes) - 1) /\ IsBool(c.tr) /\ IsBool(c.given)
@@ -416,14 +436,16 @@ BaseOK(c) ==
                    \* batched_modes=k (an int): the SAME number names the batch mode of both tensors
                    /\ (c.bint => Len(c.b1) = 1 /\ c.b1 = c.b2)
          [] c.op = "mttkrp" ->
-              /\ IsShape(c.shape, 2, MaxOrder) /\ c.R \in 1..MaxDim /\ c.mode \in 0..(Len(c.shape) - 1)
+              /\ IsShape(c.shape, 2, MaxOrder + 2) /\ c.R \in 1..MaxDim /\ c.mode \in 0..(Len(c.shape) - 1)
               /\ IsBool(c.w) /\ c.variant \in {"default", "memory"}
          [] c.op = "moment" ->
               /\ IsShape(c.shape, 2, 3) /\ c.order \in 1..3
          [] c.op = "sampled_kr" ->
-              /\ IsShape(c.rows, 1, 4) /\ c.R \in 1..MaxDim
+              /\ (IsShape(c.rows, 1, 4) \/ (DOMAIN c.rows = 1..Len(c.rows) /\ c.rows \in BigRows /\ c.R <= 2))
+              /\ c.R \in 1..MaxDim
               /\ c.skip \in (-1)..(Len(c.rows) - 1) /\ (c.skip >= 0 => Len(c.rows) >= 2)
               /\ c.ns \in 1..3 /\ IsBool(c.given)
+              /\ (IF c.given THEN InSeq(c.idt, IdxForms) ELSE c.idt = "rng")
 
 \* ---- operand shapes a configuration prescribes: ts = the tensor list, w = weights, mask
 Raises(c) == "bad" \in DOMAIN c /\ c.bad
@@ -474,7 +496,7 @@ OutSize(c) ==      \* entries of the result (bounded by MaxOut)
             (Size(c.s1) * Size(c.s2)) \div (ProdSeq(Pick(c.s1, Plus1(t.m1))) * ProdSeq(Pick(c.s1, Plus1(t.m1))) * ProdSeq(Pick(c.s1, Plus1(t.b1))))
       [] c.op = "moment" -> LET r == Size(Tail(c.shape)) IN IF c.order = 1 THEN r ELSE IF c.order = 2 THEN r * r ELSE r * r * r
       [] OTHER -> 1
-InSizeOK(c) == LET sh == InShapes(c) IN \A k \in 1..Len(sh) : Size(sh[k]) <= MaxSize + 12
+InSizeOK(c) == IsBigKR(c) \/ LET sh == InShapes(c) IN \A k \in 1..Len(sh) : Size(sh[k]) <= MaxSize + 12
 
 \* ---- thinning
 NegCode(n) == CASE n = "none" -> 0 [] n = "m1" -> 1 [] n = "m2" -> 2 [] n = "b" -> 3 [] OTHER -> 4
@@ -489,7 +511,7 @@ Flat(c) ==
             <<B2N(c.mint), B2N(c.bint), NegCode(c.neg)>> \o t.m1 \o t.m2 \o t.b1 \o t.b2 \o c.s1 \o c.s2
       [] c.op = "mttkrp" -> <<c.R, c.mode, B2N(c.w), B2N(c.variant = "memory")>> \o c.shape
       [] c.op = "moment" -> <<c.order>> \o c.shape
-      [] c.op = "sampled_kr" -> <<c.skip + 1, c.ns, B2N(c.given), c.R>> \o c.rows
+      [] c.op = "sampled_kr" -> <<c.skip + 1, c.ns, B2N(c.given), c.R, IF c.idt = "i16" THEN 1 ELSE 0>> \o c.rows
 \* polynomial hash of the configuration's numbers (all >= 0), reduced modulo the thinning prime
 Hash(xs, p) == LET F[k \in 0..Len(xs)] == IF k = 0 THEN 7 ELSE (F[k - 1] * 31 + xs[k] + 1) % 1000003
                IN  F[Len(xs)] % p
@@ -498,7 +520,8 @@ ThinTab ==
                    outer |-> 37, batched_outer |-> 47, tensordot |-> 101, mttkrp |-> 23, moment |-> 1, sampled_kr |-> 19],
      thorough |-> [mode_dot |-> 3, multi_mode_dot |-> 29, kronecker |-> 97, khatri_rao |-> 11, inner |-> 7,
                    outer |-> 7, batched_outer |-> 11, tensordot |-> 67, mttkrp |-> 5, moment |-> 1, sampled_kr |-> 17]]
-Thin(c) == ThinTab[Tier][c.op] * (IF Raises(c) THEN 5 ELSE 1)
+Thin(c) == IF IsBigKR(c) THEN (IF Tier = "quick" THEN 2 ELSE 1)
+           ELSE ThinTab[Tier][c.op] * (IF Raises(c) THEN 5 ELSE 1)
 Keep(c) == /\ (Thin(c) = 1 \/ Hash(Flat(c), Thin(c)) = 0)
            /\ (c.op = "tensordot" => BaseOK(c))          \* Full("tensordot") is a candidate set
            /\ OutSize(c) <= MaxOut /\ InSizeOK(c)
@@ -525,7 +548,18 @@ Keep(c) == /\ (Thin(c) = 1 \/ Hash(Flat(c), Thin(c)) = 0)
 (*         of the scales, exactly (dyadic numbers, < 2^53); the harness logs result / prod(scales)  *)
 (*         and `exact` = that quotient is an integer tensor.  A truncated or float32-rounded        *)
 (*         result fails Exact or Value.                                                            *)
-FormFields == {"ity", "dt", "ct", "sc"}
+(*   rep : the operation is called rep times on the SAME argument objects (same list / tuple /      *)
+(*         arrays); every call must return the documented value (state must not leak between calls)  *)
+(*   me  : magnitude regime: the first operand is passed multiplied by 2^me (tiny / huge); e2 is    *)
+(*         the exponent this contributes to the result (me times the number of times the formula    *)
+(*         uses the first operand), which the harness divides out exactly -- powers of two scale     *)
+(*         exactly, so the Value clause stays an exact integer comparison                           *)
+FormFields == {"ity", "dt", "ct", "sc", "rep", "me", "e2"}
+RepForms == <<1, 2, 3>>
+MagForms(c) == IF c.dt \in {"int_f", "f32_f64"} \/ Raises(c) THEN <<0>>     \* an int64 / float32 operand has no such range
+               ELSE IF c.op = "moment" THEN <<0, -300, 300>> ELSE <<0, -600, 500>>
+FirstUses(c) == IF c.op = "moment" THEN c.order
+                ELSE IF c.op \in {"kronecker", "khatri_rao", "sampled_kr"} /\ c.skip = 0 THEN 0 ELSE 1
 \* forms each operation is exercised with (forms that the unchanged tree does not handle and the
 \* documentation does not promise are left out -- see the driver's assumptions)
 \*  * tensordot(modes=k) / (batched_modes=k) with k a NumPy integer: both backends test isinstance(k, int)
@@ -562,12 +596,13 @@ WithForms(c) ==
     LET h  == Hash(Flat(c), 999983)
         f  == [ity |-> Rot(IntForms(c), h), dt |-> Rot(DtForms(c), h \div 3), ct |-> Rot(CtForms(c), h \div 15)]
         cf == c @@ f
-    IN  cf @@ [sc |-> ScaleCodes(cf)]
-InSeq(x, seq) == \E k \in 1..Len(seq) : seq[k] = x
+        me == Rot(MagForms(cf), h \div 90)
+    IN  cf @@ [sc |-> ScaleCodes(cf), rep |-> Rot(RepForms, h \div 30), me |-> me, e2 |-> me * FirstUses(cf)]
 ValidCfg(c) ==
     /\ BaseOK(c) /\ DOMAIN c = Fields(c.op) \cup FormFields
     /\ InSeq(c.ity, IntForms(c)) /\ InSeq(c.dt, DtForms(c)) /\ InSeq(c.ct, CtForms(c))
     /\ c.sc = ScaleCodes(c)
+    /\ InSeq(c.rep, RepForms) /\ InSeq(c.me, MagForms(c)) /\ c.e2 = c.me * FirstUses(c)
 
 ----------------------------------------------------------------------------
 (* Theorems about the specification (evaluated by TLC in every state of the design run, i.e. for  *)
@@ -715,7 +750,12 @@ ThmSampledKR(c, ts) ==
         out == SampledKR(ts, idxs, c.skip, c.ns)
         rows == SampledRows(ts, idxs, c.skip, c.ns)
         kr == KhatriRao(ts, Ones(<<c.R>>), Ones(SkipAt(c.rows, c.skip)), c.skip)
-    IN  \A s \in 1..c.ns : \A r \in 0..(c.R - 1) : At(out, <<s - 1, r>>) = At(kr, <<rows[s], r>>)
+        Is == SkipAt(c.rows, c.skip)
+    IN  \* row number = sum_k idx_k * prod_{j > k} I_j  (Lin is the Horner form of the same number)
+        /\ \A s \in 1..c.ns : rows[s] = SumSeq([k \in 1..Len(Is) |-> idxs[k][s] * ProdSeq(SubSeq(Is, k + 1, Len(Is)))])
+        /\ \A s \in 1..c.ns : rows[s] \in 0..(ProdSeq(Is) - 1)
+        \* the sampled rows are those rows of the full product (only formed when it is small)
+        /\ (~IsBigKR(c) => \A s \in 1..c.ns : \A r \in 0..(c.R - 1) : At(out, <<s - 1, r>>) = At(kr, <<rows[s], r>>))
 
 CfgOK(c) ==
     /\ ValidCfg(c)
